@@ -110,7 +110,7 @@ CLAIMED = {
             "JSON/YAML/MessagePack with wrapper keys: ancestors' fields first, type marker present and resolvable inside "
             "the transmitted document, the transmitted value sent back reconstructs the same subclass with equal fields. The tree has a member renamed with sub_name in the root, and the signatures also declare a customised variant of a non-root class and Array(non-root).",
             "one class tree (subclasses in the namespace of their base); bounded parts listed in the evidence",
-            "contract-based verification: case analysis over live class-hierarchy facts + labelled bounded round trips",
+            "contract-based deductive verification of the xsi:type marker resolution (z3 strings, VCs from the live AST) + case analysis over live class-hierarchy facts + labelled bounded round trips",
             "DESIGN.md section 4 C16"),
     'C01': ("Occurrence lemmas of the structural XML codec proved with symbolic min_occurs/max_occurs: "
             "_get_members_etree emits exactly the children the schema convention prescribes (nothing / one xsi:nil / one "
@@ -243,6 +243,17 @@ ROUND6 = {
     'C16': "Round 6: the class tree served first by an application with another target namespace.",
     'C18': "Round 6: Duration / DateTime / Decimal / Double / Date values. Deductive: get_serialization_instance for sequences / dicts of symbolic values.",
 }
+_LEM = ("the primitive-codec lemmas this property's contracts assume (C08.integer.*.roundtrip, deductive over every integer of "
+        "each fixed-width type; C08.decimal.digit_restricted, bounded) are discharged again by this check (lemma import).")
+ROUND7 = {
+    'C01': "Round 7: " + _LEM,
+    'C02': "Round 7: " + _LEM,
+    'C03': "Round 7: " + _LEM,
+    'C04': "Round 7: _to_native_values (flat documents) under contract for every raw value kind a transport delivers, uploaded multipart parts included (defect found and fixed: a file part reached a Unicode member).",
+    'C09': "Round 7: a fault with an empty, non-None detail: presence of the detail is part of 'intact' for the typed document families.",
+    'C13': "Round 7, deductive: _gen_http_headers for symbolic header texts, scalar / list / tuple values.",
+    'C16': "Round 7, deductive: the xsi:type resolution of from_element for every attribute text, prefix and bound namespace (z3 strings) against the live registry; bounded: the six util.dictdoc document helpers with polymorphic on and off.",
+}
 ISOLATION = (" Every path runs in a forked child of the worker (no process-wide state of the code under contract is shared "
              "between paths; native replays start from the freshly loaded state).")
 
@@ -261,7 +272,7 @@ def main():
         checks=[], not_applicable=[], notes="exit codes: 0 held, 1 VIOLATION, 2 undecided, 3 checker error")
     for k in sorted(CLAIMED):
         text, note, tech, ref = CLAIMED[k][:4]
-        text = text + ' ' + ROUND4.get(k, '') + ' ' + ROUND5.get(k, '') + ' ' + ROUND6.get(k, '') + ISOLATION
+        text = text + ' ' + ROUND4.get(k, '') + ' ' + ROUND5.get(k, '') + ' ' + ROUND6.get(k, '') + ' ' + ROUND7.get(k, '') + ISOLATION
         cat = CLAIMED[k][4] if len(CLAIMED[k]) > 4 else 'proof'
         m['checks'].append(dict(
             property_id=k, quick_cmd="bin/check %s --tier quick" % k, thorough_cmd="bin/check %s --tier thorough" % k,
